@@ -30,6 +30,7 @@ import (
 	"path/filepath"
 	"sort"
 	"strings"
+	"unicode"
 
 	"golang.org/x/tools/go/ssa"
 )
@@ -775,4 +776,155 @@ func (e *Engine) runFaults() {
 	if faultsDone != faultsCount {
 		faultsErr = fmt.Errorf("fault harness stopped after %d of %d cases: %v\n%s", faultsDone, faultsCount, err, truncate(string(outb), 2000))
 	}
+}
+
+// ---------------------------------------------------------------- COVER (C09): every content element is read
+//
+// A necessary condition for "formatting retains every declaration, attribute, documentation string":
+// for every grammar rule (and labelled alternative) and every content element of it - a sub-rule, a
+// token with variable text, an optional or repeated keyword - the formatter contains a call of an
+// accessor of that element on a context of that rule, or prints the whole context generically
+// (GetText / GetChildren on it or on an enclosing rule).  An element no formatter function ever reads
+// cannot reach the output: it is silently deleted.  Derived from grammar/PacketDsl.g4 on every run;
+// decided on the SSA of the formatter functions (all inputs).  One obligation per (rule, element).
+
+func (e *Engine) coverObligations() []*Obligation {
+	// calls made by the formatter: context type -> method names
+	calls := map[string]map[string]bool{}
+	note := func(ctx, m string) {
+		if _, isCtx := e.tree.ctxs[ctx]; !isCtx && strings.HasPrefix(ctx, "I") {
+			ctx = ctx[1:] // interface IXContext of context type XContext
+		}
+		if calls[ctx] == nil {
+			calls[ctx] = map[string]bool{}
+		}
+		calls[ctx][m] = true
+	}
+	var fns []*ssa.Function
+	seen := map[*ssa.Function]bool{}
+	for _, fn := range e.allRepoFunctions() {
+		if fn.Signature.Recv() != nil && strings.Contains(fn.Signature.Recv().Type().String(), "PacketDslFormattor") {
+			fns = append(fns, fn)
+			seen[fn] = true
+		}
+	}
+	for i := 0; i < len(fns); i++ {
+		for _, c := range e.staticCallees(fns[i]) {
+			if !seen[c] && c.Pkg != nil && strings.HasSuffix(c.Pkg.Pkg.Path(), "/internal/parser") && (c.Signature.Recv() == nil || strings.Contains(c.Signature.Recv().Type().String(), "PacketDslFormattor")) {
+				seen[c] = true
+				fns = append(fns, c)
+			}
+		}
+	}
+	for _, fn := range fns {
+		for _, b := range fn.Blocks {
+			for _, in := range b.Instrs {
+				c, ok := in.(ssa.CallInstruction)
+				if !ok {
+					continue
+				}
+				cc := c.Common()
+				if cc.IsInvoke() {
+					if n := grammarCtxName(cc.Value.Type()); n != "" {
+						note(n, cc.Method.Name())
+					}
+					continue
+				}
+				sc := cc.StaticCallee()
+				if sc == nil || sc.Signature.Recv() == nil || len(cc.Args) == 0 {
+					continue
+				}
+				if n := grammarCtxName(sc.Signature.Recv().Type()); n != "" {
+					note(n, sc.Name())
+					continue
+				}
+				// promoted method of the embedded BaseParserRuleContext: recover the context type
+				for v := cc.Args[0]; ; {
+					fa, ok := v.(*ssa.FieldAddr)
+					if !ok {
+						break
+					}
+					if n := grammarCtxName(fa.X.Type()); n != "" {
+						note(n, sc.Name())
+					}
+					v = fa.X
+				}
+			}
+		}
+	}
+	ts := e.tree
+	// contexts printed generically, and everything below them
+	generic := map[string]bool{}
+	var markGeneric func(ctx string)
+	markGeneric = func(ctx string) {
+		if generic[ctx] {
+			return
+		}
+		generic[ctx] = true
+		cs := ts.ctxs[ctx]
+		if cs == nil {
+			return
+		}
+		for _, alt := range ts.ruleAlts[cs.rule.name] {
+			markGeneric(alt)
+		}
+		for el := range cs.counts {
+			if !unicode.IsUpper(rune(el[0])) {
+				markGeneric(exportName(el) + "Context")
+			}
+		}
+	}
+	for ctx, ms := range calls {
+		if ms["GetText"] || ms["GetChildren"] {
+			markGeneric(ctx)
+		}
+	}
+	var out []*Obligation
+	var names []string
+	for n := range ts.ctxs {
+		names = append(names, n)
+	}
+	sort.Strings(names)
+	separators := map[string]bool{"COMMA": true, "SEMICOLON": true, "COLON": true}
+	for _, ctx := range names {
+		cs := ts.ctxs[ctx]
+		if cs.alt == nil && len(ts.ruleAlts[cs.rule.name]) > 0 {
+			continue // the elements live in the labelled alternatives' contexts
+		}
+		var els []string
+		for el := range cs.counts {
+			els = append(els, el)
+		}
+		sort.Strings(els)
+		for _, el := range els {
+			cnt := cs.counts[el]
+			if cnt.max0 || separators[el] {
+				continue
+			}
+			isTok := unicode.IsUpper(rune(el[0]))
+			if isTok && cnt.min >= 1 && !cnt.many && len(ts.tokLits[el]) == 1 {
+				continue // a mandatory keyword with fixed text is printed as a literal
+			}
+			acc := accessorName(el)
+			want := []string{acc, "All" + acc}
+			for lbl, target := range cs.labels {
+				if target == el {
+					want = append(want, "Get"+strings.ToUpper(lbl[:1])+lbl[1:])
+				}
+			}
+			ok := generic[ctx]
+			for _, w := range want {
+				if calls[ctx][w] {
+					ok = true
+				}
+			}
+			detail := ""
+			if !ok {
+				detail = fmt.Sprintf("no formatter function calls any of %v on a %s, and no enclosing rule is printed generically: the element cannot reach the formatted text", want, ctx)
+			}
+			out = append(out, mkObl(fmt.Sprintf("COVER:%s:%s", ctx, el), "COVER", "formatter",
+				fmt.Sprintf("the formatter reads element %s of %s", el, ctx), ok, detail))
+		}
+	}
+	return out
 }
